@@ -23,7 +23,7 @@ ASSUMPTIONS = [
 
 @st.composite
 def cases(draw, nums=("frac",), with_nodes=None):
-    src = draw(gen.curves(0, 3, 3, nums=nums, rational=False, dim=draw(st.sampled_from([0, 0, 2]))))
+    src = draw(gen.curves(0, 3, 3, nums=nums, rational=False, dim=draw(st.sampled_from([0, 0, 2])), regimes="all"))
     U, p = src["U"], src["p"]
     bk = gen.breaks_of(U)
     mode = draw(st.sampled_from(["refinement", "generic", "generic"]))
